@@ -555,3 +555,111 @@ func c18Stateful(r *fw.Run, p *fw.Program) {
 }
 
 var c18StatefulExceptions = map[string]string{}
+
+// ---------------------------------------------------------------------------
+// C18.mapper: scalar mappers are read-only on themselves
+//
+// Value mappers (scalar.UintMapSymStr, UintRangeToScalar, ... and decoder-defined ones) live in package-level
+// tables and are handed to the field readers through the scalar.*Mapper interfaces, so every decode of the
+// process calls Map* on the same object. Rule: no Map* method of an fq mapper type writes through its receiver
+// (directly or through callees; interprocedural summaries).
+
+func c18Mapper(r *fw.Run, p *fw.Program) {
+	ru := r.Rule("C18.mapper", "no Map* method of a scalar mapper type (the implementations of the scalar.*Mapper interfaces, shared through package-level tables) writes through its receiver - map, slice, pointer or struct holding them - directly or through callees: mapping a value never changes the shared table", 40)
+	// mapper interfaces: scalar.<Kind>Mapper
+	var ifaces []*types.Interface
+	if pk := p.Pkg("pkg/scalar"); pk != nil && pk.Types != nil {
+		sc := pk.Types.Scope()
+		for _, n := range sc.Names() {
+			if strings.HasSuffix(n, "Mapper") {
+				if i, ok := sc.Lookup(n).Type().Underlying().(*types.Interface); ok {
+					ifaces = append(ifaces, i)
+				}
+			}
+		}
+	}
+	if len(ifaces) < 5 {
+		ru.Undecided("anchor:mappers", "", "scalar.*Mapper interfaces not found")
+		return
+	}
+	summ := mutationSummaries(p)
+	for _, fn := range p.FqFunctions() {
+		if fn.Signature.Recv() == nil || !strings.HasPrefix(fn.Name(), "Map") || len(fn.Params) == 0 {
+			continue
+		}
+		rt := fn.Signature.Recv().Type()
+		impl := false
+		for _, i := range ifaces {
+			if types.Implements(rt, i) {
+				impl = true
+			}
+		}
+		if !impl {
+			continue
+		}
+		key := fw.ShortFn(fn)
+		if summ[fn][0] && !c18TypeInGlobals(p, rt) && pkgRel(fn) != "pkg/scalar" {
+			ru.Ok(key, p.Rel(fn.Pos()), "keeps state in its receiver, but no package-level variable holds a value of this type: created per decode")
+			continue
+		}
+		if summ[fn][0] {
+			where := ""
+			for _, w := range writesIn(fn, summ) {
+				if root := memRoot(w.target); root == ssa.Value(fn.Params[0]) {
+					where = w.what + " at " + p.Rel(w.ins.Pos())
+					break
+				}
+			}
+			ru.Fail(key, p.Rel(fn.Pos()), "writes through its receiver ("+where+"): mappers are shared package-level tables, so one decode changes what every other decode maps (and concurrent decodes race)")
+		} else {
+			ru.Ok(key, p.Rel(fn.Pos()), "does not write through its receiver")
+		}
+	}
+}
+
+// c18TypeInGlobals: some package-level variable of the fq module is of type t / *t or contains it (depth 4).
+func c18TypeInGlobals(p *fw.Program, t types.Type) bool {
+	if pt, ok := t.(*types.Pointer); ok {
+		t = pt.Elem()
+	}
+	var has func(x types.Type, depth int, seen map[types.Type]bool) bool
+	has = func(x types.Type, depth int, seen map[types.Type]bool) bool {
+		if depth > 4 || seen[x] {
+			return false
+		}
+		seen[x] = true
+		if types.Identical(x, t) {
+			return true
+		}
+		switch u := x.Underlying().(type) {
+		case *types.Pointer:
+			return has(u.Elem(), depth+1, seen)
+		case *types.Slice:
+			return has(u.Elem(), depth+1, seen)
+		case *types.Array:
+			return has(u.Elem(), depth+1, seen)
+		case *types.Map:
+			return has(u.Key(), depth+1, seen) || has(u.Elem(), depth+1, seen)
+		case *types.Struct:
+			for i := 0; i < u.NumFields(); i++ {
+				if has(u.Field(i).Type(), depth+1, seen) {
+					return true
+				}
+			}
+		}
+		return false
+	}
+	for _, pk := range p.SSA.AllPackages() {
+		if !strings.HasPrefix(pk.Pkg.Path(), fw.Mod) {
+			continue
+		}
+		for _, m := range pk.Members {
+			if g, ok := m.(*ssa.Global); ok {
+				if has(g.Type().(*types.Pointer).Elem(), 0, map[types.Type]bool{}) {
+					return true
+				}
+			}
+		}
+	}
+	return false
+}
